@@ -324,6 +324,33 @@ def clauses(sim, scn, obs, shift=0):
         add("C02", "analysis.aggregate_current", np.allclose(analysis.aggregate_current(sim)[:T], agg, rtol=1e-9, atol=1e-12))
     except Exception as e:
         add("C02", "analysis_callable", False, f"{type(e).__name__}: {e}")
+    # the same ledger on the simulation as it comes back from JSON (what a user analyses later is often a stored run): rows are looked up through the
+    # LOADED network's own station order and voltages
+    try:
+        import warnings as _w
+        with _w.catch_warnings():
+            _w.simplefilter("ignore")
+            sim2 = type(sim).from_json(sim.to_json())
+    except Exception:
+        sim2 = None           # serialisability itself is C09's business
+    if sim2 is not None:
+        ids2 = list(sim2.network.station_ids)
+        idx2 = {s: k for k, s in enumerate(ids2)}
+        R2 = sim2.charging_rates
+        for sid, ev in sim2.ev_history.items():
+            s = sess.get(sid)
+            if s is None or s["station"] not in idx2:
+                add("C02", "restored_run_keeps_its_sessions_and_stations", False, f"{sid}")
+                continue
+            k = idx2[s["station"]]
+            v2 = float(sim2.network._voltages[k])
+            want = sum(float(R2[k, t]) * v2 / 1000 * sim2.period / 60 for t in range(s["arrival"] + shift, min(s["departure"] + shift, T)))
+            add("C02", "restored_run_delivered_equals_sum_rate_x_V_x_dt", close(ev._energy_delivered, want, 1e-8),
+                f"{sid} at {s['station']}: reported {ev._energy_delivered}, ledger over the restored run {want} (station order {ids2})")
+        for s_ in ids2:
+            for t in range(T):
+                if expected_occupant(scn, s_, t, shift) is None:
+                    add("C02", "restored_run_vacant_station_records_zero", float(R2[idx2[s_], t]) == 0.0, f"station={s_} t={t} rate={float(R2[idx2[s_], t])}")
     # ---------------- C05
     mr = sim.max_recompute
     ev_times = set(h[0] for h in hist)
